@@ -495,6 +495,10 @@ Section Main.
   Definition mul_vectors (rest : list (bool * val)) : nat :=
     length (filter (fun p : bool * val => fst p && is_vector (snd p)) rest).
 
+  Ltac fin_count :=
+    unfold needed, mul_vectors in *; simpl in *; rewrite ?orb_false_r in *;
+    repeat match goal with |- context [if ?f then _ else _] => destruct f end; simpl in *; lia.
+
   Lemma sov_cases : forall v, scalar_or_vector v ->
     (exists k c, v = Num k c) \/ (exists k n d, v = Arr k [n] d /\ length d = n).
   Proof.
@@ -514,29 +518,25 @@ Section Main.
       destruct (sov_cases _ Hres) as [[kr [cr ->]] | [kr [nr [dr [-> Hlr]]]]];
         destruct (sov_cases _ Hv) as [[kv [cv ->]] | [kv [nv [dv [-> Hlv]]]]];
         destruct o; simpl in Hcount; simpl.
-      + (* Num * Num *) apply IH; auto. simpl. exact I.
-      + (* Num / Num *) destruct (cis_zero cv); simpl; [everr|]. apply IH; auto. simpl. exact I.
+      + (* Num * Num *) apply IH; [exact I | assumption | fin_count].
+      + (* Num / Num *) destruct (cis_zero cv); simpl; [everr|]. apply IH; [exact I | assumption | fin_count].
       + (* Num * vec *) destruct flag; simpl; [everr|].
-        apply IH; auto.
-        * simpl. rewrite map_length. exact Hlv.
-        * unfold needed in *. simpl in *. lia.
+        apply IH; [simpl; rewrite map_length; exact Hlv | assumption | fin_count].
       + (* Num / vec *) everr.
-      + (* vec * Num *) apply IH; auto.
-        * simpl. rewrite map_length. exact Hlr.
-      + (* vec / Num *) unfold div_data. destruct (cis_zero cv); simpl; [everr|]. apply IH; auto.
-        simpl. rewrite map_length. exact Hlr.
+      + (* vec * Num *) apply IH; [simpl; rewrite map_length; exact Hlr | assumption | fin_count].
+      + (* vec / Num *) unfold div_data. destruct (cis_zero cv); simpl; [everr|].
+        apply IH; [simpl; rewrite map_length; exact Hlr | assumption | fin_count].
       + (* vec * vec *) destruct flag; simpl; [everr|].
-        unfold needed in Hcount. simpl in Hcount.
-        destruct (Nat.eqb (sprod [nr]) 1); simpl.
-        { apply IH; auto; [simpl; rewrite map_length; exact Hlv | unfold needed; lia]. }
-        destruct (Nat.eqb (sprod [nv]) 1); simpl.
-        { apply IH; auto; [simpl; rewrite map_length; exact Hlr | unfold needed; lia]. }
+        destruct (Nat.eqb (nr * 1) 1); simpl.
+        { apply IH; [simpl; rewrite map_length; exact Hlv | assumption | fin_count]. }
+        destruct (Nat.eqb (nv * 1) 1); simpl.
+        { apply IH; [simpl; rewrite map_length; exact Hlr | assumption | fin_count]. }
         destruct (Nat.eqb nr nv); simpl; [|everr].
-        apply IH; auto; [simpl; exact I | unfold needed; lia].
+        apply IH; [exact I | assumption | fin_count].
       + (* vec / vec *) unfold div_data.
-        destruct (Nat.eqb (sprod [nv]) 1); simpl; [|everr].
-        destruct (cis_zero (item dv)); simpl; [everr|]. apply IH; auto.
-        simpl. rewrite map_length. exact Hlr.
+        destruct (Nat.eqb (nv * 1) 1); simpl; [|everr].
+        destruct (cis_zero (item dv)); simpl; [everr|].
+        apply IH; [simpl; rewrite map_length; exact Hlr | assumption | fin_count].
   Qed.
 
   (* a chain of numbers and vectors (any lengths, any number of operands, '*' and '/' in any positions)
@@ -616,3 +616,301 @@ Section Main.
     rewrite L. reflexivity.
   Qed.
 End Main.
+
+(* ------------------------------------------------------------------ Gaussian rationals up to == *)
+From Coq Require Import Setoid Morphisms Lqa.
+
+Definition ceq (x y : C) : Prop := cre x == cre y /\ cim x == cim y.
+Lemma ceq_refl : forall x, ceq x x.
+Proof. intro x. split; reflexivity. Qed.
+Lemma ceq_sym : forall x y, ceq x y -> ceq y x.
+Proof. intros x y [H1 H2]. split; symmetry; assumption. Qed.
+Lemma ceq_trans : forall x y z, ceq x y -> ceq y z -> ceq x z.
+Proof. intros x y z [H1 H2] [H3 H4]. split; etransitivity; eassumption. Qed.
+Add Parametric Relation : C ceq
+  reflexivity proved by ceq_refl symmetry proved by ceq_sym transitivity proved by ceq_trans as ceq_rel.
+
+Add Parametric Morphism : cadd with signature ceq ==> ceq ==> ceq as cadd_mor.
+Proof. intros [a b] [a' b'] [H1 H2] [c d] [c' d'] [H3 H4]. unfold ceq, cadd in *. simpl in *. split; lra. Qed.
+Add Parametric Morphism : cmul with signature ceq ==> ceq ==> ceq as cmul_mor.
+Proof.
+  intros [a b] [a' b'] [H1 H2] [c d] [c' d'] [H3 H4]. unfold ceq, cmul in *. simpl in *.
+  split; rewrite H1, H2, H3, H4; reflexivity.
+Qed.
+
+Lemma cadd_0_l : forall x, ceq (cadd c0 x) x.
+Proof. intros [a b]. unfold ceq, cadd, c0. simpl. split; lra. Qed.
+Lemma cadd_0_r : forall x, ceq (cadd x c0) x.
+Proof. intros [a b]. unfold ceq, cadd, c0. simpl. split; lra. Qed.
+Lemma cadd_comm : forall x y, ceq (cadd x y) (cadd y x).
+Proof. intros [a b] [c d]. unfold ceq, cadd. simpl. split; lra. Qed.
+Lemma cadd_assoc : forall x y z, ceq (cadd x (cadd y z)) (cadd (cadd x y) z).
+Proof. intros [a b] [c d] [e f]. unfold ceq, cadd. simpl. split; lra. Qed.
+Lemma cmul_0_r : forall x, ceq (cmul x c0) c0.
+Proof. intros [a b]. unfold ceq, cmul, c0. simpl. split; lra. Qed.
+Lemma cmul_0_l : forall x, ceq (cmul c0 x) c0.
+Proof. intros [a b]. unfold ceq, cmul, c0. simpl. split; lra. Qed.
+Lemma cmul_1_l : forall x, ceq (cmul c1 x) x.
+Proof. intros [a b]. unfold ceq, cmul, c1. simpl. split; lra. Qed.
+Lemma cmul_assoc : forall x y z, ceq (cmul x (cmul y z)) (cmul (cmul x y) z).
+Proof. intros [a b] [c d] [e f]. unfold ceq, cmul. simpl. split; ring. Qed.
+Lemma cmul_add_distr_l : forall x y z, ceq (cmul x (cadd y z)) (cadd (cmul x y) (cmul x z)).
+Proof. intros [a b] [c d] [e f]. unfold ceq, cmul, cadd. simpl. split; ring. Qed.
+Lemma cmul_add_distr_r : forall x y z, ceq (cmul (cadd x y) z) (cadd (cmul x z) (cmul y z)).
+Proof. intros [a b] [c d] [e f]. unfold ceq, cmul, cadd. simpl. split; ring. Qed.
+Lemma ceq_zero : forall x, ceq x c0 -> cis_zero x = true.
+Proof.
+  intros [a b] [H1 H2]. unfold cis_zero. simpl in *. apply andb_true_iff. split; apply Qeq_bool_iff; assumption.
+Qed.
+
+(* finite sums over seq s n *)
+Definition sig (s n : nat) (f : nat -> C) : C := csum (map f (seq s n)).
+Lemma sigma_sig : forall n f, sigma n f = sig 0 n f.
+Proof. reflexivity. Qed.
+Lemma sig_S : forall s n f, sig s (S n) f = cadd (f s) (sig (S s) n f).
+Proof. reflexivity. Qed.
+Lemma sig_ext : forall n s f g, (forall l, (s <= l < s + n)%nat -> ceq (f l) (g l)) -> ceq (sig s n f) (sig s n g).
+Proof.
+  induction n as [|n IH]; intros s f g H.
+  - reflexivity.
+  - rewrite !sig_S. rewrite (H s) by lia. rewrite (IH (S s) f g); [reflexivity|]. intros l Hl. apply H. lia.
+Qed.
+Lemma sig_zero : forall n s f, (forall l, (s <= l < s + n)%nat -> ceq (f l) c0) -> ceq (sig s n f) c0.
+Proof.
+  induction n as [|n IH]; intros s f H.
+  - reflexivity.
+  - rewrite sig_S. rewrite (H s) by lia. rewrite IH; [apply cadd_0_l|]. intros l Hl. apply H. lia.
+Qed.
+Lemma sig_add : forall n s f g, ceq (sig s n (fun l => cadd (f l) (g l))) (cadd (sig s n f) (sig s n g)).
+Proof.
+  induction n as [|n IH]; intros s f g.
+  - unfold sig. simpl. symmetry. apply cadd_0_l.
+  - rewrite !sig_S. rewrite IH.
+    destruct (f s) as [a b], (g s) as [c d], (sig (S s) n f) as [e h], (sig (S s) n g) as [i j].
+    unfold ceq, cadd. simpl. split; lra.
+Qed.
+Lemma sig_scal_l : forall n s a f, ceq (sig s n (fun l => cmul a (f l))) (cmul a (sig s n f)).
+Proof.
+  induction n as [|n IH]; intros s a f.
+  - unfold sig. simpl. symmetry. apply cmul_0_r.
+  - rewrite !sig_S. rewrite IH. symmetry. apply cmul_add_distr_l.
+Qed.
+Lemma sig_scal_r : forall n s a f, ceq (sig s n (fun l => cmul (f l) a)) (cmul (sig s n f) a).
+Proof.
+  induction n as [|n IH]; intros s a f.
+  - unfold sig. simpl. symmetry. apply cmul_0_l.
+  - rewrite !sig_S. rewrite IH. symmetry. apply cmul_add_distr_r.
+Qed.
+Lemma sig_exchange : forall n m s t (f : nat -> nat -> C),
+  ceq (sig s n (fun i => sig t m (fun j => f i j))) (sig t m (fun j => sig s n (fun i => f i j))).
+Proof.
+  induction n as [|n IH]; intros m s t f.
+  - unfold sig at 1. simpl. symmetry. apply sig_zero. intros. reflexivity.
+  - rewrite sig_S. rewrite IH.
+    rewrite <- sig_add. apply sig_ext. intros l Hl. rewrite sig_S. reflexivity.
+Qed.
+(* sum_j delta(i,j) x_j = x_i *)
+Lemma sig_delta : forall n s i (x : nat -> C), (s <= i < s + n)%nat ->
+  ceq (sig s n (fun j => cmul (if Nat.eqb i j then c1 else c0) (x j))) (x i).
+Proof.
+  induction n as [|n IH]; intros s i x H; [lia|].
+  rewrite sig_S. destruct (Nat.eqb i s) eqn:E.
+  - apply Nat.eqb_eq in E. subst s. rewrite cmul_1_l.
+    rewrite sig_zero; [apply cadd_0_r|]. intros l Hl.
+    assert (Nat.eqb i l = false) as N by (apply Nat.eqb_neq; lia). rewrite N. apply cmul_0_l.
+  - apply Nat.eqb_neq in E. rewrite cmul_0_l. rewrite IH by lia. apply cadd_0_l.
+Qed.
+
+Lemma Forall2_nth : forall {A} (R : A -> A -> Prop) l1 l2 d i,
+  Forall2 R l1 l2 -> (i < length l1)%nat -> R (nth i l1 d) (nth i l2 d).
+Proof.
+  intros A R l1 l2 d i H. revert i. induction H as [|x y l1 l2 Hxy H IH]; intros i Hi; simpl in Hi; [lia|].
+  destruct i; simpl; auto. apply IH. lia.
+Qed.
+
+(* a matrix with a left inverse has only the zero vector in its kernel *)
+Lemma left_inverse_kernel : forall n d b x,
+  data_eq (matmat n n n b d) (identity n) ->
+  data_eq (matvec n n d x) (repeat c0 n) ->
+  forall i, (i < n)%nat -> ceq (ent x i) c0.
+Proof.
+  intros n d b x Hinv Hker i Hi.
+  (* x_i = sum_j I[i,j] x_j = sum_j (sum_l b[i,l] d[l,j]) x_j = sum_l b[i,l] (sum_j d[l,j] x_j) = 0 *)
+  transitivity (sig 0 n (fun j => cmul (if Nat.eqb i j then c1 else c0) (ent x j))).
+  { symmetry. apply (sig_delta n 0 i (ent x)). lia. }
+  transitivity (sig 0 n (fun j => cmul (sig 0 n (fun l => cmul (ent b (i * n + l)) (ent d (l * n + j)))) (ent x j))).
+  { apply sig_ext. intros j Hj.
+    assert (ceq (ent (matmat n n n b d) (i * n + j)) (ent (identity n) (i * n + j))) as E.
+    { unfold ent. apply (Forall2_nth (fun x y => cre x == cre y /\ cim x == cim y)); [exact Hinv|].
+      rewrite matmat_length. nia. }
+    rewrite matmat_entry, identity_entry in E by lia. rewrite sigma_sig in E. rewrite E. reflexivity. }
+  transitivity (sig 0 n (fun j => sig 0 n (fun l => cmul (ent b (i * n + l)) (cmul (ent d (l * n + j)) (ent x j))))).
+  { apply sig_ext. intros j Hj. rewrite <- sig_scal_r. apply sig_ext. intros l Hl. symmetry. apply cmul_assoc. }
+  rewrite sig_exchange.
+  apply sig_zero. intros l Hl. rewrite sig_scal_l.
+  assert (ceq (ent (matvec n n d x) l) (ent (repeat c0 n) l)) as E.
+  { unfold ent. apply (Forall2_nth (fun x y => cre x == cre y /\ cim x == cim y)); [exact Hker|].
+    rewrite matvec_length. lia. }
+  rewrite matvec_entry in E by lia. rewrite sigma_sig in E. rewrite E.
+  unfold ent. rewrite nth_repeat. apply cmul_0_r.
+Qed.
+
+Section Inverse.
+  Variable negpow : bool.
+  Variable inv : inv_oracle.
+  Variable spow : spow_oracle.
+  Hypothesis inv_ok : inv_sound inv.
+
+  (* a sound inverse oracle refuses every matrix that has a nonzero kernel vector *)
+  Lemma sound_oracle_refuses_singular : forall k n d, has_kernel_vector n d -> inv k n d = None.
+  Proof.
+    intros k n d [x [Hlx [Hnz Hker]]]. destruct (inv k n d) as [b|] eqn:E; [|reflexivity]. exfalso.
+    destruct (inv_ok _ _ _ _ E) as [_ [_ Hleft]].
+    apply Exists_exists in Hnz. destruct Hnz as [c [Hin Hc]].
+    destruct (In_nth _ _ c0 Hin) as [i [Hi Hnth]].
+    pose proof (left_inverse_kernel n d b x Hleft Hker i) as Z. rewrite Hlx in Hi. specialize (Z Hi).
+    apply ceq_zero in Z. unfold ent in Z. rewrite Hnth in Z. congruence.
+  Qed.
+
+  (* negative integer powers of a square matrix: the power of the inverse, or the singular-matrix error *)
+  Theorem negative_power_spec : forall ka n d ke e,
+    negpow = true -> proper (Arr ka [n; n] d) -> integer_like ke e = true -> (exponent_Z e < 0)%Z ->
+    (exists b, py_binop negpow inv spow Pow (Arr ka [n; n] d) (Num ke e)
+               = Ret (Arr (kmax KFloat ka) [n; n] (mpow n b (Z.to_nat (- exponent_Z e))))
+               /\ data_eq (matmat n n n d b) (identity n) /\ data_eq (matmat n n n b d) (identity n))
+    \/ py_binop negpow inv spow Pow (Arr ka [n; n] d) (Num ke e) = Raise ESingular.
+  Proof.
+    intros ka n d ke e Hon [Hl Hp] Hil Hneg. simpl. unfold pow_arr.
+    rewrite (proper_not_numberlike _ Hp), Nat.eqb_refl, Hil, Hon. rewrite andb_false_r.
+    unfold matrix_power. assert ((0 <=? exponent_Z e)%Z = false) as L by (apply Z.leb_gt; exact Hneg). rewrite L.
+    destruct (inv ka n d) as [b|] eqn:E; [left | right; reflexivity].
+    exists b. destruct (inv_ok _ _ _ _ E) as [_ [H1 H2]]. auto.
+  Qed.
+
+  Theorem singular_negative_power_error : forall ka n d ke e,
+    proper (Arr ka [n; n] d) -> has_kernel_vector n d -> cre e < 0 ->
+    is_student_error (py_binop negpow inv spow Pow (Arr ka [n; n] d) (Num ke e)).
+  Proof.
+    intros ka n d ke e [Hl Hp] Hk Hneg. unfold is_student_error. simpl. unfold pow_arr.
+    rewrite (proper_not_numberlike _ Hp), Nat.eqb_refl.
+    destruct (integer_like ke e); [| eexists; split; reflexivity].
+    assert ((exponent_Z e <? 0)%Z = true) as L.
+    { apply Z.ltb_lt. unfold exponent_Z.
+      assert (Qred (cre e) < 0) as Q by (rewrite Qred_correct; exact Hneg).
+      unfold Qlt in Q. simpl in Q. lia. }
+    rewrite L. destruct negpow; simpl; [| eexists; split; reflexivity].
+    unfold matrix_power. assert ((0 <=? exponent_Z e)%Z = false) as L' by (apply Z.leb_gt; apply Z.ltb_lt; exact L).
+    rewrite L', (sound_oracle_refuses_singular ka n d Hk). eexists; split; reflexivity.
+  Qed.
+End Inverse.
+
+(* the exact inverse of Model/MathArray.v certifies its own answers, so inv_sound is satisfiable *)
+Lemma list_ceqb_data_eq : forall a b, list_ceqb a b = true -> data_eq a b.
+Proof.
+  induction a as [|x a IH]; destruct b as [|y b]; simpl; intro H; try discriminate; [constructor|].
+  apply andb_true_iff in H. destruct H as [H1 H2]. constructor; [|apply IH; exact H2].
+  unfold ceqb in H1. apply andb_true_iff in H1. destruct H1 as [P Q]. split; apply Qeq_bool_iff; assumption.
+Qed.
+Theorem exact_inv_sound : inv_sound exact_inv.
+Proof.
+  intros k n d b H. unfold exact_inv in H.
+  destruct (cis_zero (det n d)); [discriminate|].
+  destruct (list_ceqb _ _ && list_ceqb _ _) eqn:E; [|discriminate]. injection H as <-.
+  apply andb_true_iff in E. destruct E as [E1 E2].
+  split; [| split; apply list_ceqb_data_eq; assumption].
+  rewrite map_length. unfold adjugate. rewrite (flat_map_const_length _ n).
+  - rewrite seq_length. reflexivity.
+  - intro i. rewrite map_length, seq_length. reflexivity.
+Qed.
+
+(* ------------------------------------------------------------------ restatements used verbatim by Props/C14.v *)
+Lemma elementwise_entry : forall (f : C -> C -> C) l1 l2 i, (i < length l1)%nat -> (i < length l2)%nat ->
+  nth i (map2 f l1 l2) c0 = f (nth i l1 c0) (nth i l2 c0).
+Proof. intros. apply map2_nth; assumption. Qed.
+Lemma power_unfolds : forall n d k, mpow n d 0 = identity n /\ mpow n d (S k) = matmat n n n d (mpow n d k).
+Proof. intros. split; reflexivity. Qed.
+Lemma negative_power_disabled_error' : forall inv spow a ke e,
+  proper a -> is_arr a -> cre e < 0 -> is_student_error (py_binop false inv spow Pow a (Num ke e)).
+Proof. intros. apply negative_power_disabled_error; auto. Qed.
+Lemma negative_power_partial : forall inv spow, inv_sound inv -> forall ka n d ke e,
+  proper (Arr ka [n; n] d) -> integer_like ke e = true -> (exponent_Z e < 0)%Z ->
+  (exists b, py_binop true inv spow Pow (Arr ka [n; n] d) (Num ke e)
+             = Ret (Arr (kmax KFloat ka) [n; n] (mpow n b (Z.to_nat (- exponent_Z e))))
+             /\ data_eq (matmat n n n d b) (identity n) /\ data_eq (matmat n n n b d) (identity n))
+  \/ py_binop true inv spow Pow (Arr ka [n; n] d) (Num ke e) = Raise ESingular.
+Proof. intros inv spow H ka n d ke e. apply (negative_power_spec true inv spow H). reflexivity. Qed.
+
+(* ------------------------------------------------------------------ witnesses and examples *)
+(* np.linalg.inv([[3,3],[5,5]]) as observed on the implementation (exact doubles) *)
+Definition numpy_inv_observed : inv_oracle := fun _ _ _ =>
+  Some [ (2251799813685248 # 1, 0); (- (1351079888211149 # 1), 0);
+         (- (2251799813685248 # 1), 0); (1351079888211149 # 1, 0) ].
+Definition singular_witness : list C := [ (3, 0); (3, 0); (5, 0); (5, 0) ].
+Definition no_spow : spow_oracle := fun _ _ _ _ => Raise EOutside.
+Definition zi (z : Z) : C := (inject_Z z, 0).
+Definition cred (c : C) : C := (Qred (cre c), Qred (cim c)).
+
+Lemma c14_singular_refuted :
+  proper (Arr KInt [2; 2]%nat singular_witness) /\
+  has_kernel_vector 2 singular_witness /\
+  (match py_binop true numpy_inv_observed no_spow Pow (Arr KInt [2; 2]%nat singular_witness) (Num KInt (zi (-1))) with
+   | Ret (Arr KFloat [2%nat; 2%nat] d) =>
+       map cred d = [ (2251799813685248 # 1, 0); (- (1351079888211149 # 1), 0);
+                      (- (2251799813685248 # 1), 0); (1351079888211149 # 1, 0) ]
+   | _ => False end) /\
+  ~ inv_sound numpy_inv_observed.
+Proof.
+  split; [split; [reflexivity | simpl; lia] |]. split; [| split].
+  - exists [ (1, 0); (- (1), 0) ]. split; [reflexivity|]. split.
+    + constructor. reflexivity.
+    + unfold data_eq. simpl. repeat (constructor; [split; vm_compute; reflexivity |]). constructor.
+  - vm_compute. reflexivity.
+  - intro H. destruct (H KInt 2%nat singular_witness _ eq_refl) as [_ [H1 _]].
+    inversion H1 as [|? ? ? ? [Hre _] _]. vm_compute in Hre. discriminate.
+Qed.
+
+Lemma c14_ex_products :
+  py_binop true exact_inv no_spow Mul (Arr KInt [2;2]%nat (map zi [1;2;3;4]%Z)) (Arr KInt [2]%nat (map zi [5;6]%Z))
+    = Ret (Arr KInt [2]%nat [(17,0); (39,0)]) /\
+  py_binop true exact_inv no_spow Mul (Arr KInt [2]%nat (map zi [1;2]%Z)) (Arr KInt [2;2]%nat (map zi [1;2;3;4]%Z))
+    = Ret (Arr KInt [2]%nat [(7,0); (10,0)]) /\
+  py_binop true exact_inv no_spow Mul (Arr KInt [2]%nat (map zi [1;2]%Z)) (Arr KInt [2]%nat (map zi [3;4]%Z))
+    = Ret (Num KInt (11,0)) /\
+  py_binop true exact_inv no_spow Mul (Arr KInt [1;2]%nat (map zi [1;2]%Z)) (Arr KInt [2;1]%nat (map zi [3;4]%Z))
+    = Ret (Num KInt (11,0)).
+Proof. vm_compute. repeat split; reflexivity. Qed.
+
+Lemma c14_ex_powers :
+  (match py_binop true exact_inv no_spow Pow (Arr KInt [2;2]%nat (map zi [1;2;3;4]%Z)) (Num KInt (zi (-1))) with
+   | Ret (Arr KFloat [2%nat; 2%nat] d) => map cred d = [(-2,0); (1,0); (3#2,0); (-1#2,0)]
+   | _ => False end) /\
+  py_binop false exact_inv no_spow Pow (Arr KInt [2;2]%nat (map zi [1;2;3;4]%Z)) (Num KInt (zi (-1))) = Raise ENegPowDisabled /\
+  py_binop true exact_inv no_spow Pow (Arr KInt [2;2]%nat (map zi [1;2;2;4]%Z)) (Num KInt (zi (-1))) = Raise ESingular /\
+  py_binop true exact_inv no_spow Pow (Arr KInt [2;2]%nat (map zi [1;2;3;4]%Z)) (Num KFloat (2,0))
+    = Ret (Arr KInt [2;2]%nat [(7,0); (10,0); (15,0); (22,0)]) /\
+  py_binop true exact_inv no_spow Pow (Arr KInt [2;2]%nat (map zi [1;2;3;4]%Z)) (Num KFloat (1#2,0)) = Raise ENonIntPow /\
+  py_binop true exact_inv no_spow Pow (Arr KInt [2;2]%nat (map zi [1;2;3;4]%Z)) (Num KComplex (2,0)) = Raise ENonIntPow /\
+  py_binop true exact_inv no_spow Pow (Arr KInt [2;3]%nat (map zi [1;2;3;4;5;6]%Z)) (Num KInt (zi 2)) = Raise EPowNonSquare /\
+  py_binop true exact_inv no_spow Pow (Arr KInt [2]%nat (map zi [1;2]%Z)) (Num KInt (zi 2)) = Raise EPowShape.
+Proof. vm_compute. repeat split; reflexivity. Qed.
+
+Lemma c14_ex_errors :
+  py_binop true exact_inv no_spow Add (Arr KInt [2]%nat (map zi [1;2]%Z)) (Arr KInt [3]%nat (map zi [1;2;3]%Z)) = Raise EAddShape /\
+  py_binop true exact_inv no_spow Add (Arr KInt [2]%nat (map zi [1;2]%Z)) (Num KInt (zi 1)) = Raise EAddScalar /\
+  py_binop true exact_inv no_spow Sub (Num KInt (zi 1)) (Arr KInt [2]%nat (map zi [1;2]%Z)) = Raise EAddScalar /\
+  py_binop true exact_inv no_spow Div (Arr KInt [2]%nat (map zi [1;2]%Z)) (Arr KInt [2]%nat (map zi [1;2]%Z)) = Raise EDivArray /\
+  py_binop true exact_inv no_spow Div (Num KInt (zi 2)) (Arr KInt [2]%nat (map zi [1;2]%Z)) = Raise ERDivArray /\
+  py_binop true exact_inv no_spow Pow (Num KInt (zi 2)) (Arr KInt [2]%nat (map zi [1;2]%Z)) = Raise ERPowArray /\
+  py_binop true exact_inv no_spow Add (Num KFloat (zi 0)) (Arr KInt [2]%nat (map zi [1;2]%Z))
+    = Ret (Arr KFloat [2]%nat (map zi [1;2]%Z)).
+Proof. vm_compute. repeat split; reflexivity. Qed.
+
+Lemma c14_ex_formulas :
+  let v12 := EArr [EVal (Num KFloat (zi 1)); EVal (Num KFloat (zi 2))] in
+  let v34 := EArr [EVal (Num KFloat (zi 3)); EVal (Num KFloat (zi 4))] in
+  let v56 := EArr [EVal (Num KFloat (zi 5)); EVal (Num KFloat (zi 6))] in
+  eval_expr true exact_inv no_spow (EProd v12 [(true, v34); (true, v56)]) = Raise ETripleVec /\
+  eval_expr true exact_inv no_spow (EProd (EParen (EProd v12 [(true, v34)])) [(true, v56)])
+    = Ret (Arr KFloat [2]%nat [(55,0); (66,0)]) /\
+  eval_expr true exact_inv no_spow (EArr [v12; EArr [EVal (Num KFloat (zi 3))]]) = Raise ERagged.
+Proof. vm_compute. repeat split; reflexivity. Qed.
